@@ -2,7 +2,7 @@
    cong n a b  is  a = b (mod n)  (n | a - b).  The statements are the `..._stmt` definitions of the Proofs files.
    `_partial` = a finite kernel sweep (bound in the statement) of a statement whose full form is kept in ProofsSweep.v. *)
 From Coq Require Import ZArith Znumtheory List.
-From C13 Require Import Model ProofsBase ProofsSqrt ProofsLift ProofsNumTheo ProofsOrder ProofsLogp ProofsPow2 ProofsPk ProofsSweep.
+From C13 Require Import Model ProofsBase ProofsSqrt ProofsLift ProofsNumTheo ProofsOrder ProofsLogp ProofsPow2 ProofsPk ProofsTS ProofsSweep.
 Local Open Scope Z_scope.
 
 Theorem C13_powmod_is_power_mod : forall n a e, 0 < n -> 0 <= e -> powmod a e n = a ^ e mod n.   Proof. exact powmod_spec. Qed.
@@ -73,3 +73,11 @@ Theorem C13_sqrootmodpoweroftwo_sound : Sqrootmodpoweroftwo_sound_stmt.   Proof.
 Print Assumptions C13_sqrootmodpoweroftwo_sound.
 Theorem C13_sqrootmodprimepower_sound : Sqrootmodprimepower_sound_stmt.   Proof. exact sqrootmodprimepower_sound. Qed.
 Print Assumptions C13_sqrootmodprimepower_sound.
+Theorem C13_tonelli_shanks_total : Tonelli_complete_stmt.             Proof. exact tonelli_complete. Qed.
+Print Assumptions C13_tonelli_shanks_total.
+Theorem C13_sqrootmodprime_decides_residuosity : Sqrootmodprime_decides_stmt.   Proof. exact sqrootmodprime_decides. Qed.
+Print Assumptions C13_sqrootmodprime_decides_residuosity.
+Theorem C13_sqrootmodprime_returns : Sqrootmodprime_returns_stmt.     Proof. exact sqrootmodprime_returns. Qed.
+Print Assumptions C13_sqrootmodprime_returns.
+Theorem C13_tonelli_shift_count_64_exact_vs_native : Shift_64_stmt.   Proof. exact shift_64. Qed.
+Print Assumptions C13_tonelli_shift_count_64_exact_vs_native.
